@@ -1,7 +1,7 @@
 (* PV.C16.Examples — non-vacuity: concrete, non-trivial instances of every hypothesis / guard of the
    theorems in Properties.v. *)
 From Coq Require Import List Bool NArith Arith.
-From PV Require Import C16.Model C16.Proofs C16.ProofsCodec C16.ProofsStore C16.ProofsText C16.Refuted.
+From PV Require Import C16.Model C16.Proofs C16.ProofsCodec C16.ProofsStore C16.ProofsText C16.Concurrent C16.Refuted.
 Import ListNotations.
 
 Definition w2 : list witem := [WInit; WStore mP; WStore mI; WLog cx dt inf [104;105]%N].
@@ -102,3 +102,28 @@ Proof.
   split; [exists [112;32;80;32;100;10]%N; vm_compute; auto|].
   split; [vm_compute; reflexivity|]. split; [unfold log_state; vm_compute; auto|]. split; vm_compute; reflexivity.
 Qed.
+
+(* subcontexts and results: a workload through the subcontext API; the 'final' entry of subcontext "s" resolves
+   to key 2 after its store, results of the subcontext are read back *)
+Definition sS : str := [115]%N.
+Definition mF := mkMdl 2 1 1 [102;105;110;97;108]%N [70]%N None.      (* named "final" *)
+Definition w_sub : list witem := [WInit; WSubInit sS; WSubStore sS mF; WResults (Some sS) 7%N; WResults None 8%N].
+Example subcontext_example :
+  results w_sub [] = [inr tt; inr tt; inr tt; inr tt; inr tt]
+  /\ resolve_name_at (cdir (Some sS)) (run w_sub []) [102;105;110;97;108]%N = Some 2%N
+  /\ resolve_name (run w_sub []) [102;105;110;97;108]%N = None
+  /\ snd (sub_retrieve sS [102;105;110;97;108]%N (run w_sub [])) = inr (2, 1, 1, None, [70])%N
+  /\ snd (retrieve_results (Some sS) (run w_sub [])) = inr 7%N
+  /\ snd (retrieve_results None (run w_sub [])) = inr 8%N
+  /\ shapeb (run w_sub []) = true.
+Proof. vm_compute. auto 8. Qed.
+
+(* the writer state machine of Concurrent.v, run alone, is the database-level store; a schedule that
+   interleaves the pre-lock system calls and lets writer 2 take the lock first gives the order 2;1 *)
+Example writer_machine_example :
+  fst (trun cP 10 P0 f_init) = PDone
+  /\ fs_eqb (snd (trun cP 10 P0 f_init)) (run [WDbStore cP] f_init) = true
+  /\ length (all_scheds 12) = 4096
+  /\ (let s := crun cP cD [true; false; true; false; true; false; true; false; true; false; false; true] f_init in
+      fs_eqb (c_fs s) (run [WDbStore cD; WDbStore cP] f_init) && negb (fs_eqb (c_fs s) (run [WDbStore cP; WDbStore cD] f_init))) = true.
+Proof. vm_compute. auto. Qed.
